@@ -547,6 +547,11 @@ class Exprs:
             c = z3.simplify(v2.isnone)
             if z3.is_false(c):
                 return self.to_text(v2.val, spec, conversion, node, fr)
+            # format of an Optional: fork on None-ness ("None" or the text of the value)
+            if not spec and not fr.in_spec:
+                if self.path.branch(v2.isnone):
+                    return self.pystr("None")
+                return self.to_text(v2.val, spec, conversion, node, fr)
             return self.opaque_str("fmtopt")
         if isinstance(v, VStr):
             if spec:
@@ -592,6 +597,8 @@ class Exprs:
         r = f(t)
         self.path.add_fact(z3.Length(r) >= 1)
         self.path.add_fact(z3.Or(z3.And(r[0] >= 48, r[0] <= 57), r[0] == 45))
+        last = r[z3.Length(r) - 1]
+        self.path.add_fact(z3.And(last >= 48, last <= 57))  # the text of an integer ends in a digit
         return VStr([r])
 
     def hex_digit(self, nib: Any, upper: bool = False) -> Any:
